@@ -110,6 +110,17 @@ def rule_c09_step(prog: Program, col: Collector) -> None:
     inc = [e for e in ft.of_kind("aug") if e.target == A("steps_taken")]
     col.check(len(inc) == 1 and inc[0].op == "+" and inc[0].value == ("const", 1), ref.where(), ref.short, "steps_taken += 1 exactly once",
               construct="step-count", necessity="the step budget of `done` counts reveals")
+    # the transition is total: reveal, recompute and count happen for every valid action in every state
+    for name in ("step", "unstep"):
+        mref = _method(prog, GYM, name)
+        mft = fterms(prog, mref)
+        trans = [x for x in mft.calls() if x.recv == R and x.name in ("reveal_value", "unreveal_value", "compute_bounds")] + \
+            [x for x in mft.of_kind("aug") if x.target == A("steps_taken")]
+        guarded = [x for x in trans if any(f[0] in ("if", "for", "while", "try") for f in x.ctx)]
+        col.check(not guarded, mref.where(guarded[0].node if guarded else None), mref.short,
+                  f"{name} (un)reveals, recomputes and counts unconditionally (no guard or loop around the transition)", construct=f"transition-guarded:{name}",
+                  necessity="a step that is skipped in some states (after `done`, for some actions) leaves the known set different from 'minimal information plus the chosen "
+                            "coalitions' while info still reports the coalition as chosen, and the matching unstep then undoes a reveal that never happened")
 
     col.rule("Y5", "compute_reward returns the negated gap of the game it is given", 1)
     cref = prog.func("icg_gym.compute_reward")
